@@ -35,6 +35,32 @@ META = dict(
 
 TYPES = (2, 3, 4, 192, 20)
 TYPE_NAME = {2: "IGNORE", 3: "UNIMPLEMENTED", 4: "DEBUG", 192: "type-192", 20: "KEXINIT"}
+# service / authentication / connection-layer messages: none of them is a key-exchange message either
+UPPER_TYPES = (5, 6, 50, 51, 52, 53, 60, 61, 80, 81, 82, 90, 91, 92, 93, 94, 95, 96, 97, 98, 99, 100)
+TYPE_NAME.update({5: "SERVICE_REQUEST", 6: "SERVICE_ACCEPT", 50: "USERAUTH_REQUEST", 51: "USERAUTH_FAILURE",
+                  52: "USERAUTH_SUCCESS", 53: "USERAUTH_BANNER", 60: "USERAUTH_PK_OK", 61: "USERAUTH_INFO_RESPONSE",
+                  80: "GLOBAL_REQUEST", 81: "REQUEST_SUCCESS", 82: "REQUEST_FAILURE", 90: "CHANNEL_OPEN",
+                  91: "CHANNEL_OPEN_CONFIRMATION", 92: "CHANNEL_OPEN_FAILURE", 93: "CHANNEL_WINDOW_ADJUST",
+                  94: "CHANNEL_DATA", 95: "CHANNEL_EXTENDED_DATA", 96: "CHANNEL_EOF", 97: "CHANNEL_CLOSE",
+                  98: "CHANNEL_REQUEST", 99: "CHANNEL_SUCCESS", 100: "CHANNEL_FAILURE"})
+
+
+def _u32(*v):
+    import struct
+
+    return b"".join(struct.pack(">I", x) for x in v)
+
+
+_S = mitm.ssh_string
+UPPER_PAYLOAD = {
+    5: _S("ssh-userauth"), 6: _S("ssh-userauth"),
+    50: _S("u") + _S("ssh-connection") + _S("none"), 51: _S("password") + b"\x00", 52: b"", 53: _S("hello") + _S(""),
+    60: _S("ssh-ed25519") + _S(b"x"), 61: _u32(0),
+    80: _S("vf@verif") + b"\x01", 81: b"", 82: b"",
+    90: _S("session") + _u32(0, 2097152, 32768), 91: _u32(0, 0, 2097152, 32768), 92: _u32(0, 1) + _S("no") + _S(""),
+    93: _u32(0, 1024), 94: _u32(0) + _S("data"), 95: _u32(0, 1) + _S("data"), 96: _u32(0), 97: _u32(0),
+    98: _u32(0) + _S("shell") + b"\x01", 99: _u32(0), 100: _u32(0),
+}
 MODES = (
     ("aes128-ctr", "hmac-sha2-256"),
     ("aes256-cbc", "hmac-sha2-256-etm@openssh.com"),
@@ -62,6 +88,8 @@ def payload_for(ptype, original):
         return mitm.debug_payload(b"vf")
     if ptype == 20:
         return None  # filled in from the sender's own KEXINIT
+    if ptype in UPPER_PAYLOAD:
+        return bytes([ptype]) + UPPER_PAYLOAD[ptype]
     return mitm.unknown_payload(ptype)
 
 
@@ -247,6 +275,14 @@ def inject_case(ctx, kex, role, k, ptype, strict_c, strict_s, hostalg, sample, d
         ctx.case(fp, sample=desc if sample else None)
         ctx.count("injections_delivered")
         ctx.count("injections_delivered.%s" % TYPE_NAME[ptype])
+        if both and drop_enc is None and not marker:
+            # explicit matrix: victim role x position (0 = before KEXINIT ... last = before NEWKEYS) x injected type
+            ctx.count("matrix.%s.pos%d.%s" % (role, k, TYPE_NAME[ptype]))
+            if ptype in UPPER_PAYLOAD:
+                ctx.count("upper.injections_judged")
+                ctx.count("upper.%s.injections_judged" % role)
+                if ptype >= 80:
+                    ctx.count("upper.connection_layer.%s.injections_judged" % role)
         wit = dict(case=desc, victim_inbound=[(e["type"], e["seq"]) for e in seq[:8]], victim_exc=repr(vt.saved_exception),
                    client_exc=repr(lab.pair.client_exc))
         if not both:
@@ -525,6 +561,15 @@ def run(ctx):
                             continue
                         alg = kexlab.HOSTALGS[(ki + k + ti) % 7]
                         inject_case(ctx, kex, role, k, ptype, True, True, alg, samp("inject"))
+                # -- service / auth / connection-layer types: every cell (role x position x type) at least
+                #    once per run in quick (one kex method each), on every kex in thorough -------------------
+                for k in range(npos):
+                    for ti, ptype in enumerate(UPPER_TYPES):
+                        if ctx.quick and (ti + k + ctx.seed) % 10 != ki:
+                            continue
+                        if not mine():
+                            continue
+                        inject_case(ctx, kex, role, k, ptype, True, True, kexlab.HOSTALGS[(ki + k + ti) % 7], False)
                 # -- strict not agreed: nothing asserted, sampled in quick --------------------------------
                 combos = [(True, False), (False, True), (False, False)]
                 for ci, (sc, ss) in enumerate(combos):
@@ -594,6 +639,14 @@ def run(ctx):
                         continue
                     honest_case(ctx, kex, True, True, 1 + (ki + mi) % 2, kexlab.HOSTALGS[(ki + mi) % 7], False,
                                 mode=MODES[(ki + mi) % 5], marker=(side, mpos))
+    ctx.require("upper.client.injections_judged", 50)
+    ctx.require("upper.server.injections_judged", 50)
+    ctx.require("upper.connection_layer.client.injections_judged", 30)
+    ctx.require("upper.connection_layer.server.injections_judged", 30)
+    for role in ("client", "server"):
+        for k in range(3):
+            for t in (80, 81, 82, 90, 91, 92):
+                ctx.require("matrix.%s.pos%d.%s" % (role, k, TYPE_NAME[t]), 1)
     ctx.require("marker.injections_judged", 120)
     ctx.require("marker.first.injections_judged", 40)
     ctx.require("marker.middle.injections_judged", 20)
